@@ -25,7 +25,7 @@ pub fn run(ctx: &mut Ctx) {
     let part = ctx.part.clone();
     if part.is_empty() || part == "basic" { basic(ctx); }
     if part.is_empty() || part == "vectors" { vectors(ctx); }
-    if part.is_empty() || part == "bitvectors" { bitvectors(ctx); }
+    if part.is_empty() || part == "bitvectors" { bitvectors(ctx); mebibytes(ctx); }
     if part.is_empty() || part == "streams" { streams(ctx); }
     if part.is_empty() || part == "params" { size_by_params(ctx); }
 }
@@ -272,6 +272,47 @@ fn bv_with_supports(bits: &[bool], subset: usize) -> BitVector {
     if subset & 2 != 0 { bv.enable_select(); }
     if subset & 4 != 0 { bv.enable_select_zero(); }
     bv
+}
+
+// Structures whose serialized parts are (exact multiples of) a mebibyte and more: implementations that read or write in
+// blocks have their boundaries there. One vector of 40 Mbit with rank support (its samples alone exceed 1 MiB).
+fn mebibytes(ctx: &mut Ctx) {
+    if cfg!(miri) || !ctx.mine(0) { return; }
+    for (k, items) in [131_072usize, 131_071, 131_073, 262_144, 400_000].iter().enumerate() {
+        if !ctx.begin_case() { continue; }
+        let v: Vec<u64> = (0..*items as u64).map(|i| i.wrapping_mul(0x9E37_79B9_7F4A_7C15) ^ (i >> 3)).collect();
+        roundtrip(ctx, "vec_u64_mib", &v, None, &|| format!("Vec<u64> of {} items ({} bytes)", items, items * 8));
+        let p: Vec<(u64, u64)> = (0..(*items as u64) / 2).map(|i| (i.wrapping_mul(0xD134_2543_DE82_EF95), !i)).collect();
+        roundtrip(ctx, "vec_pair_mib", &p, None, &|| format!("Vec<(u64,u64)> of {} items ({} bytes)", items / 2, items * 8));
+        let b: Vec<u8> = (0..*items * 8).map(|i| (i * 7 + i / 251) as u8).collect();
+        roundtrip(ctx, "vec_u8_mib", &b, None, &|| format!("Vec<u8> of {} bytes", items * 8));
+        ctx.case(hash64(&[20, k as u64, *items as u64]), true);
+    }
+    if ctx.begin_case() {
+        let mut rng = ctx.rng(0xC6_9000);
+        let words = 625_000usize; // 40 Mbit
+        let mut raw = simple_sds::raw_vector::RawVector::with_capacity(words * 64);
+        let mut prefix: Vec<u32> = Vec::with_capacity(words + 1); // ones before each word (the oracle for rank)
+        let mut ones = 0u32;
+        for _ in 0..words {
+            let w = rng.next_u64() & rng.next_u64() & rng.next_u64();
+            prefix.push(ones);
+            ones += w.count_ones();
+            unsafe { simple_sds::raw_vector::PushRaw::push_int(&mut raw, w, 64); }
+        }
+        prefix.push(ones);
+        let words_copy: Vec<u64> = { let r: &[u64] = raw.as_ref(); r.to_vec() };
+        let mut bv = BitVector::from(raw);
+        bv.enable_rank();
+        let positions: Vec<usize> = (0..3000).map(|i| if i % 3 == 0 { (1usize << 24) + rng.below(1 << 24) } else { rng.below(words * 64 + 1) }).collect();
+        let want: Vec<usize> = positions.iter().map(|&p| { let (w, o) = (p / 64, p % 64); prefix[w] as usize + if o > 0 { (words_copy[w] & ((1u64 << o) - 1)).count_ones() as usize } else { 0 } }).collect();
+        let positions2 = positions.clone();
+        let digest = move |b: &BitVector| -> Result<u64, String> { guard(|| hash64(&positions2.iter().map(|&p| b.rank(p) as u64).collect::<Vec<u64>>())) };
+        ctx.expect_eq("bit_vector_40mbit.rank", || "rank at 3000 positions of a 40 Mbit bitvector (before serialization)".to_string(), &guard(|| positions.iter().map(|&p| bv.rank(p)).collect::<Vec<usize>>()), &want);
+        roundtrip(ctx, "bit_vector_40mbit", &bv, Some(&digest), &|| format!("BitVector of {} bits with rank support ({} ones)", words * 64, ones));
+        ctx.case(hash64(&[21, ones as u64]), true);
+        ctx.sample(|| format!("mebibytes: Vec<u64>/Vec<(u64,u64)>/Vec<u8> around 1 MiB and 2 MiB; BitVector of 40 Mbit with rank support, rank compared at 3000 positions before and after the round trip"));
+    }
 }
 
 fn bitvectors(ctx: &mut Ctx) {
